@@ -32,6 +32,11 @@ PROPS = {
                      floors={"points>=1000": 0.3}, 
                      assumptions=["no dynamic race detector understands libgomp here (ThreadSanitizer reports false races): only schedule-dependent OUTCOMES across thread counts are observed",
                                   "refinement tolerances come from a fixed palette, so a rounding difference in a reduction flipping a decision is improbable but not excluded; floats are compared to 1e-10 relative"]),
+    "C17": grid_prop(260, 60000, size=60, level="fault_enumeration", extra_flavours=["plain"], quick=dict(cases=260, size=60, wall=900, shards=10, case_budget=60),
+                     runner_env={"VERIF_C17_DRIVER": ("plain", "c17driver"), "VERIF_C17_SHIM": ("plain", "fsfault.so")},
+                     floors={"kill:inside-write": 0.1, "kill:after-a-completed-checkpoint": 0.5, "mode:parallel": 0.1},
+                     assumptions=["crash points are the intercepted libc calls (fopen/open, write/writev, fclose/close) on the two checkpoint paths, with four torn-write fractions; reordering below the system-call level (power loss) is not modelled",
+                                  "the recomputation bound is asserted in sequential mode, where every computed sample is part of the next checkpoint"]),
     "C06": grid_prop(40000, 1500000,
                      floors={"fam:global": 0.08, "fam:sequence": 0.08, "fam:localp": 0.08, "fam:wavelet": 0.08, "fam:fourier": 0.08,
                              "fmt:ascii": 0.35, "sec:pending": 0.04, "sec:construction": 0.04, "sec:transform": 0.04, "sec:limits": 0.04}),
@@ -44,6 +49,11 @@ NOT_APPLICABLE = {}
 
 _TB = "Trusted base: the harness (decoder, reference models, oracles) and the sanitizer runtimes; generation is random, so absence of violations is evidence for the explored distribution only (reported in the evidence file)."
 META = {
+    "C17": dict(technique="fault injection driven by property-based generation (rapidcheck): an LD_PRELOAD shim kills the process at a generated index among all intercepted file-system operations on the checkpoint files (with torn writes); a fresh process restarts; oracles over the merged log of samples and file operations",
+                text="For generated configurations of constructSurrogate with a checkpoint file (local polynomial / wavelet with the tolerance overload, global / sequence / fourier with the anisotropic overload; sequential and parallel; budgets 6-25) a fault-free dry run counts the "
+                     "file-system operations on the two checkpoint paths; the run is then killed at a generated operation (open, write with a torn fraction, close) and restarted in a fresh process. The restart must finish normally, the final grid must carry exactly the model values and reproduce "
+                     "them, stay within the budget, must not recompute samples obtained before the last completed checkpoint, and the backup file must exist once a second checkpoint has completed. Fault enumeration over the kill index (sampled per case, every index reachable).",
+                note="Trusted base: the injector shim (operations it does not intercept are invisible), the driver program, the harness. " + _TB),
     "C13": dict(technique="property-based testing (rapidcheck, byte decoder) with a differential oracle between two builds of the library: a serial-build runner and an OpenMP-build runner executed under several OMP_NUM_THREADS",
                 text="Each generated history (load, surplus / anisotropic refinement, update, construction, merge, coefficient overwrite) is executed on larger grids by a runner linked against the serial build and by the same runner linked against the OpenMP build with "
                      "OMP_NUM_THREADS = 1 and two values from {2,3,5,7,16,48}; point sets, orders, index sets, sparse patterns and candidate lists must be identical (hashes of the exact data), coefficients, evaluations, integrals and weights equal to 1e-10 relative. Exploration; "
@@ -255,6 +265,45 @@ META.update({
                      "(((b-a)/2)^(alpha+beta+1), (b-a), b^-(1+alpha), b^-(1+alpha)/2; product of g'(t) for the conformal map); getDomainInside() accepts grid and interior points and rejects points beyond the bounds by relative margins 1e-9..10 "
                      "(Hermite accepts everything, Laguerre rejects x<a only). Exploration.",
                 note=_TB + " Grid points that the forward map rounds one ulp beyond a bound are counted, not asserted, for getDomainInside (the statement allows rounding at the boundary itself)."),
+})
+
+
+# ---- C16 (tasgrid)
+
+_CMD = {  # command floors: fraction of scripts that contain at least one accepted invocation of the command
+    "cmd:loadvalues": 0.3, "cmd:evaluate": 0.04, "cmd:integrate": 0.03, "cmd:differentiate": 0.02, "cmd:getcoefficients": 0.02, "cmd:setcoefficients": 0.04,
+    "cmd:getpoints": 0.03, "cmd:getneeded": 0.03, "cmd:getquadrature": 0.03, "cmd:getinterweights": 0.03, "cmd:getdiffweights": 0.02, "cmd:gethsupport": 0.03,
+    "cmd:evalhierarchyd": 0.03, "cmd:evalhierarchys": 0.015, "cmd:getpoly": 0.015, "cmd:getanisotropy": 0.015, "cmd:getpointsindexes": 0.02, "cmd:getneededindexes": 0.003,
+    "cmd:refine": 0.02, "cmd:refineaniso": 0.02, "cmd:refinesurp": 0.02, "cmd:cancelrefine": 0.02, "cmd:mergerefine": 0.01, "cmd:makeupdate": 0.03, "cmd:setconformal": 0.02,
+    "cmd:getconstructpnts": 0.05, "cmd:loadconstructed": 0.015, "cmd:makequadrature": 0.04, "cmd:summary": 0.02, "cmd:using-construct": 0.02,
+    "cmd:makeglobal": 0.08, "cmd:makesequence": 0.08, "cmd:makelocalpoly": 0.08, "cmd:makewavelet": 0.08, "cmd:makefourier": 0.08,
+}
+_FLOORS_C16 = dict(_CMD, **{"fmt:ascii": 0.4, "fmt:binary": 0.4, "in:ascii-matrix": 0.3, "in:binary-matrix": 0.3, "name:short": 0.3, "nontrivial": 0.15,
+                        "construct:with-data": 0.02, "load:refinement": 0.008, "load:reload": 0.03, "refine:scale": 0.002, "refine:limits": 0.01,
+                        "make:custom": 0.008, "make:conformal": 0.04, "make:transform": 0.1, "make:limits": 0.1, "make:aniso": 0.08})
+
+PROPS.update({
+    "C16": grid_prop(1500, 60000, size=400, runner_env={"VERIF_TASGRID": ("asan", "tasgrid")}, floors=_FLOORS_C16,
+                        quick=dict(cases=1500, size=400, wall=900, case_budget=60),
+                        thorough=dict(cases=60000, size=500, wall=3000, case_budget=60),
+                        assumptions=["sanitizers (ASan+UBSan) see every memory error on the executed paths of the tool and of the in-process mirror",
+                                     "the mirror (DESIGN.md Appendix C) transcribes the documented meaning of every command correctly: Doxygen/InterfaceCLI.md, `tasgrid <command> help`, and the "
+                                     "API documentation of the corresponding methods; the harness matrix readers/writers implement the documented matrix file format",
+                                     "the mirror runs the same library build as the tool, so a library defect that affects both sides equally is invisible here (it belongs to C01-C14)"]),
+})
+
+META.update({
+    "C16": dict(technique="differential property-based testing (rapidcheck, structure-aware byte decoder) of the real tasgrid executable (ASan+UBSan build, one process per invocation) against an "
+                          "in-process mirror that executes the documented API call sequence; independent readers/writers for both matrix file formats; observable-digest and byte comparison of grid files",
+                text="Generated scripts of 2-8 tasgrid invocations share one grid file: a make command of any family (dimensions, outputs, depth, type, rule, order, alpha/beta, anisotropy, level-limit, transform, "
+                     "conformal and custom-rule files) followed by a state-aware choice among loadvalues, setcoefficients, refine/refineaniso/refinesurp (types, minimum growth, output, tolerance, criteria, limits, "
+                     "scale corrections), cancelrefine, mergerefine, makeupdate, setconformal, getconstructpnts, loadconstructed, makequadrature, a new make, and the read-only commands (getpoints, getneeded, "
+                     "getquadrature, getinterweights, getdiffweights, evaluate, integrate, differentiate, getcoefficients, evalhierarchyd/s, gethsupport, getpoly, getanisotropy, point indexes, summary, "
+                     "using-construct), with long and short option names, ASCII and binary grid files and ASCII and binary input and output matrices. After every invocation the tool must not crash, hang or report a "
+                     "sanitizer error; must accept what the help text and the API accept; every matrix it writes (-outputfile in both formats, -print) must equal the mirror's array to 1e-13 relative; the grid file "
+                     "it writes must read back to the mirror's observable digest, re-write to the mirror's bytes and be byte-identical to the file the mirror writes; read-only commands must leave the grid file "
+                     "untouched. Exploration.",
+                note=_TB + " The tool and the mirror share the library build; process start-up dominates the cost (about 15 ms per invocation), which bounds the number of scripts per run."),
 })
 
 
